@@ -726,6 +726,20 @@ func (s *GenSpec) Contract(env *BuildEnv, v any) string {
 	return "harness: unknown kind " + s.K
 }
 
+// NeverRejects reports whether the generator accepts every bitstream that is long enough: it has no predicate,
+// no distinctness requirement and no length limit that could make it give up. (Conservative: false when unsure.)
+func (s *GenSpec) NeverRejects() bool {
+	switch s.K {
+	case "int", "float", "bool", "rune", "runefrom":
+		return true
+	case "string":
+		return s.MaxLen < 0 && (len(s.Sub) == 0 || s.Sub[0].K == "rune" || s.Sub[0].K == "runefrom")
+	case "slice":
+		return s.Fn == "" && s.Sub[0].NeverRejects()
+	}
+	return false
+}
+
 // Scribbled is what Scribble leaves behind.
 type Scribbled struct{}
 
